@@ -233,3 +233,52 @@ case("c07-refactor-sql-whitespace-case", "C07", "refactor", [(P + "store/stage_o
                         "end_time": stage.end_time,
                         "version": stage.version,
                     },""")])
+
+# ------------------------------------------------------------------ C08
+QS = "src/stabilize/queue/sqlite/"
+case("c08-claim-version-conjunct-dropped", "C08", "mutant", [(QS + "queue.py", "            WHERE id = :id AND version = :version\n            \"\"\",\n            {\n                \"id\": msg_id,", "            WHERE id = :id\n            \"\"\",\n            {\n                \"id\": msg_id,")], "C08.R1")
+case("c08-lost-race-continues", "C08", "mutant", [(QS + "queue.py", """            logger.debug("Lost race for message %s, will retry", msg_id)
+            return None""", """            logger.debug("Lost race for message %s, will retry", msg_id)""")], "C08.R1")
+case("c08-dlq-move-two-commits", "C08", "mutant", [(QS + "dlq.py", """        row = cursor.fetchone()
+
+        if not row:
+            logger.warning("Message %s not found for DLQ move", msg_id)""", """        row = cursor.fetchone()
+        conn.commit()
+
+        if not row:
+            logger.warning("Message %s not found for DLQ move", msg_id)""")], "C08.R2")
+case("c08-ack-in-finally", "C08", "mutant", [("src/stabilize/queue/processor/processor.py", """            finally:
+                if heartbeat_stop is not None:
+                    heartbeat_stop.set()""", """            finally:
+                self.queue.ack(message)
+                if heartbeat_stop is not None:
+                    heartbeat_stop.set()""")], "C08.R3")
+case("c08-reschedule-resets-attempts", "C08", "mutant", [(QS + "queue.py", """            SET deliver_at = :deliver_at,
+                locked_until = NULL""", """            SET deliver_at = :deliver_at,
+                attempts = 0,
+                locked_until = NULL""")], "C08.R3")
+case("c08-corrupt-message-acked", "C08", "mutant", [(QS + "queue.py", """            self.move_to_dlq(
+                msg_id,
+                error=f"Deserialization failed for message type: {msg_type}",
+            )
+            return None""", """            conn.execute(f"DELETE FROM {self.table_name} WHERE id = :id", {"id": msg_id})
+            conn.commit()
+            return None""")], "C08.R")
+case("c08-sweep-not-called-from-poll-loop", "C08", "mutant", [("src/stabilize/queue/processor/processor.py", """                    last_dlq_check = time.monotonic()
+                    self._check_dlq()""", """                    last_dlq_check = time.monotonic()""")], "C08.R4")
+case("c08-sweep-uses-column-only", "C08", "mutant", [(QS + "dlq.py", "WHERE attempts >= max_attempts OR attempts >= :queue_max_attempts", "WHERE attempts >= max_attempts")], "C08.R5")
+case("c08-unhandled-type-returns", "C08", "mutant", [("src/stabilize/queue/processor/mixins.py", """            raise RuntimeError(f"No handler registered for {get_message_type_name(message)}")""", """            logger.error("No handler registered for %s", get_message_type_name(message))
+            return""")], "C08.R6")
+case("c08-replay-alters-payload", "C08", "mutant", [(QS + "dlq.py", """                "message_type": row["message_type"],
+                "payload": row["payload"],
+            },
+        )
+        conn.commit()
+
+        logger.info("Replayed""", """                "message_type": row["message_type"],
+                "payload": "{}",
+            },
+        )
+        conn.commit()
+
+        logger.info("Replayed""")], "C08.R2")
